@@ -1678,7 +1678,7 @@ func (*VMValue).FuncInvokeRaw
   requires ctx.Attrs != nil
   ghost at precall 1 vm.evaluate: ghostAssume(0 <= vm.codeIndex && vm.codeIndex <= len(vm.code) && forall(0, vm.codeIndex, func(k int) bool { return wfInstr(&vm.code[k], k, vm.codeIndex) }) && forall(0, vm.codeIndex, func(k int) bool { return implies(vm.code[k].T == typeDetailMark, 0 <= vm.code[k].Value.(BufferSpan).Begin && vm.code[k].Value.(BufferSpan).Begin <= vm.code[k].Value.(BufferSpan).End && vm.code[k].Value.(BufferSpan).End <= IntType(len(vm.parser.data))) }), "the cached code of a function body was compiled by this package's parser from cd.Expr (well-formed, detail spans rebased into the body text: C08)")
   ghost at precall 1 vm.evaluate: ghostAssert(specInherits(vm, ctx))
-  ghost at precall 1 vm.Run: ghostAssert(specInherits(vm, ctx))
+  ghost at precall? 1 vm.Run: ghostAssert(specInherits(vm, ctx))
   // whichever way the body is compiled or run, it is under the parent's configuration (optional hooks: they fire only if such a call exists)
   ghost at precall? 1 vm.Parse: ghostAssert(specInherits(vm, ctx))
   ghost at precall? 1 vm.RunAfterParsed: ghostAssert(specInherits(vm, ctx))
@@ -1698,7 +1698,7 @@ func (*VMValue).ComputedExecute
   requires ctx != nil && v.TypeId == VMTypeComputedValue && 0 <= ctx.NumOpCount && ctx.NumOpCount <= math.MaxInt64 - 100
   ghost at precall 1 vm.evaluate: ghostAssume(0 <= vm.codeIndex && vm.codeIndex <= len(vm.code) && forall(0, vm.codeIndex, func(k int) bool { return wfInstr(&vm.code[k], k, vm.codeIndex) }) && forall(0, vm.codeIndex, func(k int) bool { return implies(vm.code[k].T == typeDetailMark, 0 <= vm.code[k].Value.(BufferSpan).Begin && vm.code[k].Value.(BufferSpan).Begin <= vm.code[k].Value.(BufferSpan).End && vm.code[k].Value.(BufferSpan).End <= IntType(len(vm.parser.data))) }), "the cached code of a computed value was compiled by this package's parser from cd.Expr (well-formed, detail spans rebased into the expression text: C08)")
   ghost at precall 1 vm.evaluate: ghostAssert(specInherits(vm, ctx))
-  ghost at precall 1 vm.Run: ghostAssert(specInherits(vm, ctx))
+  ghost at precall? 1 vm.Run: ghostAssert(specInherits(vm, ctx))
   // whichever way the body is compiled or run, it is under the parent's configuration (optional hooks: they fire only if such a call exists)
   ghost at precall? 1 vm.Parse: ghostAssert(specInherits(vm, ctx))
   ghost at precall? 1 vm.RunAfterParsed: ghostAssert(specInherits(vm, ctx))
